@@ -46,7 +46,8 @@ def make_op(spec):
         if SHARED_LISTS is not None:
             # the caller builds every wrapper of the same gate sequence from ONE list object (as user code that keeps a
             # list like [Hadamard, Phase] around does)
-            lst = SHARED_LISTS.setdefault(tuple(spec[1]), [G1[n] for n in spec[1]])
+            # (a handful of list objects per run: the first wrapper that asks for a slot defines its gate sequence)
+            lst = SHARED_LISTS.setdefault(NAMES1.index(spec[1][0]) % 3, [G1[n] for n in spec[1]])
             return ops.OneQubitGateWrapper(lst, register=spec[3], reg_type=spec[2])
         return ops.OneQubitGateWrapper([G1[n] for n in spec[1]], register=spec[3], reg_type=spec[2])
     if k == "g2":
